@@ -111,6 +111,13 @@ func c23GenStream(t *rapid.T) (stream []uint64, kinds []string) {
 	return
 }
 
+// c23Patience is how long a callback is awaited before the clock-free sentinel
+// path decides. VERIF_C23_PATIENCE_US (microseconds) lets a run force that
+// path (used once to test the harness itself; see notes).
+func c23Patience() time.Duration {
+	return time.Duration(verifkit.EnvInt("VERIF_C23_PATIENCE_US", 250_000)) * time.Microsecond
+}
+
 type c23Recorder struct {
 	mu      sync.Mutex
 	windows []uint64
@@ -196,9 +203,21 @@ func TestVerif_C23_WindowsOnceInOrder(t *testing.T) {
 				// observed invocations is forced by the harness, not by the
 				// scheduler. A missing callback is decided at the end of the
 				// case (after quiescence), never by this bounded wait.
-				select {
-				case <-rec.landed:
-				case <-time.After(250 * time.Millisecond):
+				// tokens only wake the harness up; what counts is the number of
+				// recorded callbacks (a token may be left over from a callback
+				// that landed late, after the sentinel path below)
+				want := len(model.started)
+				timeout := time.After(c23Patience())
+				landed, expired := false, false
+				for !landed && !expired {
+					select {
+					case <-rec.landed:
+					case <-timeout:
+						expired = true
+					}
+					landed = len(rec.snapshot()) >= want
+				}
+				if !landed {
 					// Not landed yet (slow machine, or a callback that will
 					// never come). Decide without the clock: an off-grid block
 					// is offered; once the watcher took it, the `go` statement
